@@ -113,4 +113,66 @@ theorem minus_gaps_closed (a b : IMap) (ha : WF a) (hb : WF b) (m : IMap) (h : m
           exact h
 
 example : minusGaps ⟨[1, 3], [2, 3], 4⟩ ⟨[0, 3], [1, 3], 4⟩ = .ok ⟨[1], [2], 4⟩ := by decide
+
+/-! ### totality of `shared_gaps` -/
+
+theorem le_lastOr : ∀ (cs : List Int) (c : Int), (c :: cs).Pairwise (· < ·) → c ≤ lastOr c cs := by
+  intro cs
+  induction cs with
+  | nil => intro c _; simp [lastOr]
+  | cons d ds ih =>
+    intro c h
+    have h' := List.pairwise_cons.mp h
+    have := ih d h'.2
+    have := h'.1 d (by simp)
+    simp only [lastOr]; omega
+
+theorem gapCoords_upper (pl : Int) : ∀ (ps cs : List Int) (prev : Int), (∀ p ∈ ps, p ≤ pl) → (prev :: cs).Pairwise (· < ·) →
+    ∀ q ∈ (startsFrom prev ps cs).zip (gapEnds ps cs), q.2 ≤ pl + lastOr prev cs := by
+  intro ps
+  induction ps with
+  | nil => intro cs prev _ _ q hq; simp [startsFrom] at hq
+  | cons p ps ih =>
+    intro cs prev hps hc q hq
+    cases cs with
+    | nil => simp [startsFrom] at hq
+    | cons c cs' =>
+      simp only [startsFrom, gapEnds, List.zip_cons_cons, List.mem_cons] at hq
+      have hc' := List.pairwise_cons.mp hc
+      simp only [lastOr]
+      rcases hq with rfl | hq
+      · have := hps p (by simp); have := le_lastOr cs' c hc'.2; simp only; omega
+      · exact ih cs' c (fun p' hp' => hps p' (by simp [hp'])) hc'.2 q hq
+
+/-- every gap run of a well-formed map ends inside the alignment -/
+theorem gapAlignCoords_le_len (m : IMap) (h : WF m) : ∀ q ∈ getGapAlignCoordinates m, q.2 ≤ len m := by
+  intro q hq
+  have hne : m.gapPos ≠ [] := by
+    intro e; simp [getGapAlignCoordinates, gapStarts, e, startsFrom] at hq
+  have := gapCoords_upper m.parentLength m.gapPos m.cumLens 0 (fun p hp => (h.pos_range p hp).2) h.cum_sorted q hq
+  have hl : lastOr 0 m.cumLens = lastD m.cumLens := by
+    cases hc : m.cumLens with
+    | nil => have := h.len_eq; rw [hc] at this; cases hg : m.gapPos with
+      | nil => exact absurd hg hne
+      | cons _ _ => rw [hg] at this; simp at this
+    | cons x xs => rw [lastD_cons]; rfl
+  simp only [IndelMap.len, hne, if_false]; omega
+
+/-- `shared_gaps(other)` between well-formed maps of the same alignment length always returns (neither assertion fires) -/
+theorem shared_gaps_total (a b : IMap) (ha : WF a) (hb : WF b) (hl : len a = len b) : ∃ r, sharedGaps a b = .ok r := by
+  obtain ⟨pa, _⟩ := gapAlignCoords_ok a ha
+  obtain ⟨pb, sb⟩ := gapAlignCoords_ok b hb
+  obtain ⟨r', hr', _⟩ := coordsIntersect_model_spec _ _ pa pb sb
+  simp only [sharedGaps, hl, ne_eq, not_true_eq_false, if_false]
+  split
+  · exact ⟨_, rfl⟩
+  · split
+    · exact ⟨_, rfl⟩
+    · rename_i l hlast
+      have hmem : l ∈ getGapAlignCoordinates b := List.mem_of_getLast? hlast
+      have := gapAlignCoords_le_len b hb l hmem
+      rw [if_neg (by omega)]
+      exact ⟨r', hr'⟩
+
+example : WF ⟨[1, 3], [2, 3], 4⟩ ∧ WF ⟨[0, 3], [1, 3], 4⟩ ∧ len ⟨[1, 3], [2, 3], 4⟩ = len ⟨[0, 3], [1, 3], 4⟩ := by decide
 end CogentModel.C08
